@@ -133,6 +133,9 @@ def gen_library_spec(rnd, prior_spec, n=None, allow_f4=True):
         "with_ln_prior": True,
         # a library may carry its own reference epoch (prior.sample(..., t_ref=...), or samples of an earlier run)
         "t_ref": rnd.choice([None, None, None, None, 55111.5, 58000.25]),
+        # the library object may be a slice of a longer one (negative bounds too), taken with JokerSamples.__getitem__
+        "view": None if rnd.random() < 0.85 else {"front": rnd.randint(0, 3), "back": rnd.randint(0, 3), "form": rnd.choice(["neg-both", "neg-start", "neg-stop", "pos"])},
+        "ln_prior_dtype": "f8" if (dtype == "f4" and rnd.random() < 0.5) else None,
     }
 
 
@@ -168,7 +171,6 @@ class Library:
             r, c, v = ov
             if r < n:
                 cols[c][r] = float(v)
-        self.base = cols  # base units: d, one, rad, rad, km/s
         un = spec["units"]
         dt = np.float32 if spec.get("dtype") == "f4" else np.float64
         q = {}
@@ -182,19 +184,74 @@ class Library:
             from astropy.time import Time
 
             lt = Time(float(lt), format="mjd", scale="tcb")
-        samples = tj.JokerSamples(t_ref=lt)
+        # Row identity tags (ln_prior): unique per row.  -(i + 0.25) is exactly representable in f4 and f8; a
+        # float32 library whose ln_prior is float64 (what prior.sample(dtype=float32, return_logprobs=True) makes)
+        # gets -(i + 1/3), which float32 cannot hold: a silent downcast of that column shows.
+        lp_dt = np.float64 if spec.get("ln_prior_dtype") == "f8" else dt
+        full_tags = -(np.arange(n) + (1.0 / 3.0 if (lp_dt is np.float64 and dt is np.float32) else 0.25))
         order = spec.get("column_order") or ["P", "e", "omega", "M0", "s"]
+        vals = {k: q[k].value.astype(dt) for k in order}
+        tag_vals = full_tags.astype(lp_dt)
+        # Optional VIEW: the library handed to the sampler is a slice (negative bounds included) of a LONGER
+        # JokerSamples (front/back padding rows), taken through the system's own __getitem__.  The n rows of the
+        # spec are what the slice must deliver; the reference below never goes through __getitem__.
+        view = spec.get("view")
+        front = back = 0
+        if view:
+            front, back = int(view.get("front", 0)), int(view.get("back", 0))
+        g2 = tape.np_sub(spec["gen_seed"], "pad")
+
+        def padded(k, v):
+            if not (front or back):
+                return v.copy()
+            scale = np.nanmax(np.abs(v[np.isfinite(v)])) if np.any(np.isfinite(v)) else 1.0
+            f = (g2.uniform(0.1, 0.9, front) * (scale if scale > 0 else 1.0)).astype(v.dtype)
+            bk = (g2.uniform(0.1, 0.9, back) * (scale if scale > 0 else 1.0)).astype(v.dtype)
+            return np.concatenate([f, v, bk])
+
+        samples = tj.JokerSamples(t_ref=lt)
         for k in order:
-            samples[k] = u.Quantity(q[k].value.astype(dt), q[k].unit)
+            samples[k] = u.Quantity(padded(k, vals[k]), q[k].unit)
         if spec.get("with_ln_prior", True):
-            samples["ln_prior"] = (-(np.arange(n) + 0.25)).astype(dt)
+            pad_f = (-(1.0e6 + np.arange(front) + 0.25)).astype(lp_dt)
+            pad_b = (-(2.0e6 + np.arange(back) + 0.25)).astype(lp_dt)
+            samples["ln_prior"] = np.concatenate([pad_f, tag_vals, pad_b]) if (front or back) else tag_vals.copy()
+        if front or back:
+            n_full = front + n + back
+            form = view.get("form", "neg-both")
+            lo, hi = front, front + n
+            if form == "neg-both" and back > 0:
+                sl = slice(lo - n_full, hi - n_full)
+            elif form == "neg-start":
+                sl = slice(lo - n_full, hi if back > 0 else None)
+            elif form == "neg-stop" and back > 0:
+                sl = slice(lo, hi - n_full)
+            else:
+                sl = slice(lo, hi)
+            samples = samples[sl]
+        self.base = cols  # base units: d, one, rad, rad, km/s
         self.samples = samples
         self.n = n
-        self.tags = -(np.arange(n) + 0.25)
-        # stored values (as the user's table holds them), for "rows unaltered" oracles
-        self.stored = {k: np.array(samples[k].value) for k in ["P", "e", "omega", "M0", "s"]}
-        self.stored_units = {k: samples[k].unit for k in ["P", "e", "omega", "M0", "s"]}
+        self.tags = np.asarray(tag_vals, dtype=np.float64)
+        # PRIVATE reference copies (never handed to thejoker): what the user's table holds
+        self.ref = {k: u.Quantity(vals[k].copy(), q[k].unit) for k in order}
+        self.stored = {k: np.array(self.ref[k].value) for k in ["P", "e", "omega", "M0", "s"]}
+        self.stored_units = {k: self.ref[k].unit for k in ["P", "e", "omega", "M0", "s"]}
         self.path = None
+
+    def modified_in_place(self):
+        """Columns of the live object that no longer hold what the user put there (a sampler must not edit its input)."""
+        bad = []
+        try:
+            if len(self.samples) != self.n:
+                return ["<length %d -> %d>" % (self.n, len(self.samples))]
+            for k, ref in self.ref.items():
+                col = self.samples.tbl[k]
+                if str(col.unit) != str(ref.unit) or np.asarray(col.value).tobytes() != np.asarray(ref.value).tobytes():
+                    bad.append(k)
+        except Exception as e:  # noqa: BLE001
+            bad.append("<%r>" % (e,))
+        return bad
 
     def write(self, path):
         self.samples.write(path, overwrite=True)
@@ -211,7 +268,7 @@ class Library:
         """Library nonlinear columns converted to `units` (dict name->Unit) with astropy, f8."""
         out = {}
         for k in ["P", "e", "omega", "M0", "s"]:
-            col = self.samples[k]
+            col = self.ref[k]  # private copy, not the live object
             v = col.to_value(units[k]) if k in units else col.value
             v = np.asarray(v, dtype=np.float64)
             out[k] = v if rows is None else v[np.asarray(rows)]
